@@ -86,7 +86,12 @@ func (zp *ZoneParser) generate(l lex) (RR, bool) {
 	zp.sub = NewZoneParser(r, zp.origin, zp.file)
 	zp.sub.includeDepth, zp.sub.includeAllowed = zp.includeDepth, zp.includeAllowed
 	zp.sub.generateDisallowed = true
-	zp.sub.SetDefaultTTL(defaultTtl)
+	if zp.defttl != nil {
+		// Like an $INCLUDE, the generated records inherit the $TTL / last stated / default TTL.
+		zp.sub.defttl = zp.defttl
+	} else {
+		zp.sub.SetDefaultTTL(defaultTtl)
+	}
 	return zp.subNext()
 }
 
